@@ -37,6 +37,10 @@ func (s *SyslogIngester) Process(ctx context.Context, line string) error {
 
 // ParseSyslogMessage expects a message in the form of "<PID> <Message>".
 func (s *SyslogIngester) ParseSyslogMessage(entry string) sshd.SshdLogEntry {
+	// The named pipe ingester hands over each record including its
+	// terminating newline, which is not part of the sshd message.
+	entry = strings.TrimSuffix(entry, "\n")
+
 	minimumEntrySplitLength := 2
 	entrySplit := strings.Split(entry, " ")
 
